@@ -9,7 +9,7 @@ Driver for C12.  Line formats (tokens after the property id):
         the calls (`inst` = which copy: o original, jN/j1/j2/j4 = equal-parameter twins fitted with
         that n_jobs, pk = pickled and restored copy) are run through `P12.trun`; predicted per call:
         `<args flag>:<digest>` with the args flag from `P12.effectOf` / `P12.callerAfter`.
-  hampel <w> <nsigma> <k> <retbool> <series>    HampelFilter.transform on a Series: result AND caller's series
+  hampel <w> <nsigma> <k> <retbool> <series>    HampelFilter.transform on a Series: result AND caller's series (= the input)
   par <order> <tasks>                   Parallel map of x ↦ 3x+1 under the completion order `order`
 -/
 import SkVerif.Model.C12Parallel
